@@ -686,6 +686,10 @@ class ListItem(BlockToken):
                 marker_info = cls.parse_marker(next_line)
                 if marker_info is not None:
                     next_marker = marker_info
+                    if newline_count and not List.same_marker_type(leader, marker_info[2]):
+                        # it starts another list: the blank lines before it do not belong to this item
+                        lines.backstep()
+                        del line_buffer[-newline_count:]
                     break
                 # ...or the line above it was blank
                 if newline_count:
